@@ -502,7 +502,7 @@ def run_job(prop, prop_mod, harness, cfg, tier, seed, known_pass=None):
             return
         # path without violation: validate its witness against the real code
         if harness.validate and rec["witness_validated"] < max_validate:
-            mdl = eng.witness()
+            mdl = dyadic_refine(eng, ctx, []) or eng.witness()
             if mdl is not None:
                 vals = model_inputs(ctx, mdl)
                 res = run_concrete(prop_mod, harness, cfg, vals, seed)
